@@ -78,7 +78,8 @@ type job[T any] struct {
 	status atomic.Uint32
 	wg     sync.WaitGroup
 	queue  IBaseQueue
-	ackId  string
+	// ackId is set by the dispatcher while a client may be closing the job
+	ackId atomic.Value
 }
 
 // jobView represents a view of a job's state for serialization.
@@ -133,7 +134,7 @@ func newJob[T any](data T, configs jobConfigs) *job[T] {
 }
 
 func (j *job[T]) setAckId(id string) {
-	j.ackId = id
+	j.ackId.Store(id)
 }
 
 func (j *job[T]) setInternalQueue(q IBaseQueue) {
@@ -287,7 +288,9 @@ func (j *job[T]) markClosed() error {
 }
 
 func (j *job[T]) ack() error {
-	if j.ackId == "" || j.IsClosed() {
+	ackId, _ := j.ackId.Load().(string)
+
+	if ackId == "" || j.IsClosed() {
 		return nil
 	}
 
@@ -295,8 +298,8 @@ func (j *job[T]) ack() error {
 		return nil
 	}
 
-	if ok := j.queue.(IAcknowledgeable).Acknowledge(j.ackId); !ok {
-		return fmt.Errorf("%w: jobId=%s, ackId=%s", ErrAcknowledgeJob, j.id, j.ackId)
+	if ok := j.queue.(IAcknowledgeable).Acknowledge(ackId); !ok {
+		return fmt.Errorf("%w: jobId=%s, ackId=%s", ErrAcknowledgeJob, j.id, ackId)
 	}
 
 	return nil
